@@ -125,6 +125,12 @@ CATALOGUE = [
     K("lazy-negated-immediate-too-small", "link", "error", "mov #  ⟦-nb{u}⟧, r1", "value-out-of-bounds", post=("nb{u} = 200000",)),
     K("register-under-minus", "compile", "error", ".word 1, - ⟦%3⟧", "unexpected-value"),
     K("immediate-under-deferred-minus", "compile", "error", "mov @ -  ⟦#5⟧, r0", "unexpected-value"),
+    # a backward '. =' whose target is only known later (reported when the rest of the block has been compiled long since)
+    K("lazy-backward-dot", "link", "error", "⟦.⟧ = bk{u}", "value-out-of-bounds", pre=(".link 3000", "nop"), post=("nop", "bk{u} = 2000"),
+      level="statement"),
+    # a number in a branch operand that is taken for a local label (it is not the leftmost term) and does not exist
+    K("branch-missing-local-after-decimal", "link", "error", "br 10.+⟦4{u}⟧", "undefined-symbol"),
+    K("branch-missing-local-after-char", "link", "error", "br 'a + ⟦6{u}⟧", "undefined-symbol"),
     # a string of several chunks: the culprit is the chunk that holds the bad character, not the first one
     K("rad50-invalid-character-later-chunk", "compile", "error", ".rad50 /ABC/ ⟦/d#f/⟧", "invalid-character"),
     K("rad50-invalid-character-after-code", "compile", "error", ".rad50 /AB/<1>  ⟦/x~y/⟧", "invalid-character"),
